@@ -1001,6 +1001,42 @@ def simple_periodic_scenario(ctx):
                 problems.append(f'{msg.short} is labelled MdibVersion {label} but contains states committed at {sorted(set(versions))}')
             if label > m.mdib_version:
                 problems.append(f'{msg.short} is labelled MdibVersion {label}, the mdib is at {m.mdib_version}')
+        # a writer commits while the periodic thread is between taking the stored states and sending them (the store lock is
+        # free then): what it commits belongs to the next periodic report, it must not be forgotten
+        ses = p.device.hosted_services.state_event_service
+        hs = w.states_of_kind('metric')
+        injected = []
+        orig_send = ses.send_periodic_metric_report
+
+        def send_with_writer(*a, **k):
+            if not injected:
+                with m.metric_state_transaction() as mgr:
+                    w.mutate_state(mgr.get_state(hs[0]), 77)
+                st = m.transaction.all_states()[0]
+                injected.append((st.DescriptorHandle, st.StateVersion))
+            return orig_send(*a, **k)
+        if hs:
+            with m.metric_state_transaction() as mgr:
+                w.mutate_state(mgr.get_state(hs[-1]), 76)
+            ses.send_periodic_metric_report = send_with_writer
+            try:
+                run_collector_once(probe.periodic, loop='_simple_periodic_reports_send_loop')
+            finally:
+                ses.send_periodic_metric_report = orig_send
+            run_collector_once(probe.periodic, loop='_simple_periodic_reports_send_loop')
+            seen = set()
+            for msg in p.take_wire():
+                if msg.short == 'PeriodicMetricReport':
+                    for e in etree.fromstring(msg.raw).iter():
+                        if e.get('DescriptorHandle') is not None and e.get('StateVersion') is not None:
+                            seen.add((e.get('DescriptorHandle'), int(e.get('StateVersion'))))
+            if not injected:
+                ctx.fail('periodic-scenario-not-exercised', 'the periodic metric report of the second period was not sent',
+                         {'simple_periodic': True})
+            elif injected[0] not in seen:
+                ctx.fail('changed-state-not-in-periodic-report',
+                         f'metric state {injected[0]} committed while the periodic report of the period before was on its way '
+                         f'is in no periodic report of the following period', {'simple_periodic': True, 'writer_during_send': True})
         probe.check(ctx, {'simple_periodic': True})
         case = {'simple_periodic': True, 'periodic_reports': n_reports}
         if problems:
